@@ -72,7 +72,7 @@ def consistent_fix(r, d, kind):
             d[k] = "u"
     if d["mspi"] != "u":
         if d["ms"] != "u" and d["ms"] < d["mspi"]:
-            d["ms"] = r.choice(["u", d["mspi"], d["mspi"] + 3])
+            d["ms"] = r.choice(["u", d["mspi"], min(d["mspi"] + 3, 2147483647)])
         if d["hist"] >= 0 and d["hist"] > d["mspi"]:
             d["hist"] = r.choice([-1, d["mspi"], max(d["mspi"] - 1, 0)])
     elif d["ms"] != "u":
@@ -180,7 +180,7 @@ def scenario(r):
                 b.add("T", E.eq_default("T"))
             else:
                 d = consistent_fix(r, rnd_eqos(r, "T"), "T")
-                if k > 0.9:
+                if k > 0.96:
                     d = make_inconsistent(r, d, "T")     # accepted by the code: known finding
                 b.ops.append("T %d %d %s" % (p, name, eq_spec(d, "T")))
                 b.add("T", d)
